@@ -401,6 +401,10 @@ static void runCase(uint64_t caseId, Rng rng, size_t ncycles, unsigned mode, con
 			sim.powerOn();
 			// stop between two edges: ending exactly on a time step makes the final flush an empty interval (see bit2)
 			CR runTime = CR{ncycles, 1} / islands[0].clock.getClk()->absoluteFrequency();
+			for (auto &isl : islands) { // bound the number of time steps when the clocks are far apart
+				CR alt = CR{4 * ncycles, 1} / isl.clock.getClk()->absoluteFrequency();
+				if (alt < runTime) runTime = alt;
+			}
 			if (!(zeroAfterStable && rng.chance(1, 2))) runTime += CR{1, 8} / islands[0].clock.getClk()->absoluteFrequency();
 			sim.advance(runTime);
 			if (rng.chance(1, 2)) sim.commitState();
